@@ -5,6 +5,7 @@
 import RapidModel.Generated.CallOrders
 import RapidModel.Generated.Consts
 import RapidProofs.Signals
+import RapidProofs.StateMachine
 
 namespace Rapid.C08
 
@@ -31,6 +32,57 @@ theorem invariant_errorf_stops (e : Env) (n : Nat) (hn : n ≠ 0) (actions : Nat
     (src : Src) (ts : TS) :
     ((smRepeat e n actions (.errorf msg (.ret .nil))).run src ts).res = .error (.stop msg siteInitCheck) := by
   simp [smRepeat, hn, Prog.bind, Prog.run, Out.ofRes, Out.after]
+
+/-! ### the trace-language theorem -/
+
+/-- **The check/action discipline, for every action set, invariant, bit source and `*T`.**
+    The invariant `check` and the actions `acts i` are arbitrary programs (they may draw, skip
+    before or after drawing, fail fatally or not, panic, register cleanups, use Custom generators);
+    they are instrumented with the markers `chk/chkd` (invariant begins / returned) and
+    `act i/done` (action `i` begins / returned), `sig` marks every `T.Error/Errorf/Fail`.  The
+    markers of a run of `T.Repeat` are accepted by the automaton `step`:
+      * the first call is the invariant, and the invariant is called after an action exactly when
+        that action returned (`done`) and no failure is pending;
+      * only the supplied actions `i < n` run, one at a time (no call begins inside another);
+      * after an action that did not return (skipped, invalid data) the next attempt follows — never
+        the invariant;
+      * after a signalled failure no action and no invariant call begins any more;
+      * a run that returns normally ends between two steps, a run that ends with an error may end
+        anywhere after the first invariant call began. -/
+theorem repeat_discipline (e : Env) (n : Nat) (acts : Nat → Prog) (check : Prog) (hn0 : n ≠ 0) (hn : n ≤ 2 ^ 64)
+    (ha : ∀ i, Unmarked (acts i)) (hc : Unmarked check) (src : Src) (ts : TS) :
+    ∃ s, runA n .start (marks ((smRepeat e n (fun i => markedAction i (acts i)) (markedCheck check)).run src ts).evs) = some s ∧
+      match ((smRepeat e n (fun i => markedAction i (acts i)) (markedCheck check)).run src ts).res with
+      | .ok _ => finalOk s = true
+      | .error _ => finalErr s = true := by
+  obtain ⟨s, hr, _, hm⟩ := tr_smRepeat e acts check hn0 hn ha hc src ts (fun h => by simp [dead] at h)
+  refine ⟨s, hr, ?_⟩
+  cases hres : ((smRepeat e n (fun i => markedAction i (acts i)) (markedCheck check)).run src ts).res with
+  | ok v => rw [hres] at hm; exact atHead_finalOk hm
+  | error er => rw [hres] at hm; exact hm.1
+
+/-- what the automaton accepts and rejects (two actions): a regular run; an invariant call after
+    an action that did not return; an action after a signalled failure; an action before the first
+    invariant call; an action that was not supplied; a normal return right after an action returned -/
+example :
+    (runA 2 .start [.chk, .chkd, .act 0, .done, .chk, .chkd, .act 1, .act 0, .done, .chk, .chkd]).map finalOk = some true ∧
+    runA 2 .start [.chk, .chkd, .act 0, .chk] = none ∧
+    runA 2 .start [.chk, .sig, .chkd, .act 0] = none ∧
+    runA 2 .start [.act 0] = none ∧
+    runA 2 .start [.chk, .chkd, .act 5] = none ∧
+    (runA 2 .start [.chk, .chkd, .act 0, .done]).map finalOk = some false := by decide
+
+/-- the hypotheses are satisfiable: programs that emit small ids, draw, fail and skip are `Unmarked` -/
+example : Unmarked (.emit 7 (.errorf "x" (.draw 8 fun w => if w = 0 then Prog.skip "s" else .ret .nil))) := by
+  intro src ts id h
+  have hid : id = 7 := by
+    simp only [Prog.run, after_evs] at h
+    cases hn : src.next 8 with
+    | none => simpa [hn, Out.ofRes] using h
+    | some r =>
+      simp only [hn, after_evs] at h
+      split at h <;> simpa [Prog.skip, Prog.run, Out.ofRes] using h
+  omega
 
 /-! ### facts re-read from /repo's source on every run -/
 
